@@ -172,6 +172,11 @@ func (br *Reader) Read() (*sam.Record, error) {
 	}
 
 done:
+	if b.err != nil {
+		// The record is shorter than its fixed fields and
+		// declared lengths require.
+		return nil, b.err
+	}
 	refs := int32(len(br.h.Refs()))
 	if refID != -1 {
 		if refID < -1 || refID >= refs {
